@@ -92,11 +92,41 @@ func funcLitToLambdaExpr(v *ast.FuncLit, ret *ast.Expr) {
 	}
 	if len(v.Body.List) == 1 {
 		if stmt, ok := v.Body.List[0].(*ast.ReturnStmt); ok && nres > 0 && len(stmt.Results) == nres {
-			*ret = &ast.LambdaExpr{First: v.Pos(), Last: v.Pos(), Lhs: lsh, Rhs: stmt.Results, LhsHasParen: len(lsh) > 1, RhsHasParen: len(stmt.Results) > 1}
+			rhsHasParen := len(stmt.Results) > 1 || startsWithParen(stmt.Results[0])
+			*ret = &ast.LambdaExpr{First: v.Pos(), Last: v.Pos(), Lhs: lsh, Rhs: stmt.Results, LhsHasParen: len(lsh) > 1, RhsHasParen: rhsHasParen}
 			return
 		}
 	}
 	*ret = &ast.LambdaExpr2{Lhs: lsh, Body: v.Body, LhsHasParen: len(lsh) > 1}
+}
+
+// startsWithParen reports whether e is a compound expression whose text begins
+// with '(': directly after "=>" that parenthesis would be read as the start of a
+// parenthesized result list (`x => (a + b) * 2`).
+func startsWithParen(e ast.Expr) bool {
+	if _, ok := e.(*ast.ParenExpr); ok { // (e) alone already reads as a result list
+		return false
+	}
+	for {
+		switch v := e.(type) {
+		case *ast.ParenExpr:
+			return true
+		case *ast.BinaryExpr:
+			e = v.X
+		case *ast.CallExpr:
+			e = v.Fun
+		case *ast.SelectorExpr:
+			e = v.X
+		case *ast.IndexExpr:
+			e = v.X
+		case *ast.SliceExpr:
+			e = v.X
+		case *ast.TypeAssertExpr:
+			e = v.X
+		default:
+			return false
+		}
+	}
 }
 
 func checkResult(v *ast.FieldList) (nres int, named []*ast.Ident) {
